@@ -216,6 +216,32 @@ def run(ctx):
                "enlargement: the final population is mutate(resample(population, 1.0, n_final_samples), 1.0), so its densities are re-evaluated",
                "the final-sample enlargement does not return mutate(resample(population, beta=1, size=n_final_samples), beta=1)")
 
+    # the enlargement is taken exactly when a final size was requested (and differs from the current one)
+    sfg = fold_sample(repo, resumed=False, final=None)
+    rsg = [e for e in sfg.events("method:resample", in_loop=False)]
+    okg, whyg = False, "enlargement not found"
+    if len(rsg) == 1:
+        nf = T.atom("n_final_samples")
+        guard = [c for c, pol in rsg[0].conds if any(s_ == nf for s_ in T.subterms(c))]
+        pols = [pol for c, pol in rsg[0].conds if any(s_ == nf for s_ in T.subterms(c))]
+        parts = []
+        for c in guard:
+            parts += list(c[1]) if c[0] == "and" else [c]
+        requested = ("not", ("is", nf, T.NONE))
+
+        def differs(c):
+            if not (c[0] == "cmp" and c[1] == "!=" and len(c) == 3):
+                return False
+            lf = T.linear_form(c[2])
+            keys = [k for k in lf if k != ()]
+            return lf.get((), 0) == 0 and len(keys) == 2 and nf in keys and lf[nf] == -lf[[k for k in keys if k != nf][0]] \
+                and [k for k in keys if k != nf][0][0] == "f" and [k for k in keys if k != nf][0][1] == "len"
+        okg = all(pols) and requested in parts and all(p_ == requested or differs(p_) for p_ in parts)
+        whyg = "the enlargement runs when " + " and ".join(T.show(p_)[:80] for p_ in parts) + ("" if all(pols) else " is false")
+    ctx.decide(okg, "C10.final", smp_.ident, loc_of(smp_, rsg[0].node if rsg else None),
+               "the population is enlarged exactly when a final size is requested that differs from the current size",
+               f"{whyg}: the returned population does not have the requested size", disc="guard")
+
     # ------------------------------------------------------------ (x, log_q) pairs elsewhere
     n_pairs = 0
     for ident in ("aspire.samplers.importance:ImportanceSampler.sample", "aspire.samplers.mcmc:Emcee.sample", "aspire.aspire:Aspire.sample_flow"):
@@ -297,6 +323,8 @@ MUTANTS = [
 ]
 MUTANTS += [
     M("initial: accumulates only empty rounds", _MC, "if n_valid > 0:", "if n_valid <= 0:", "C10.init"),
+    M("enlargement only when no final size is requested", "src/aspire/samplers/smc/base.py", "if n_final_samples is not None and len(samples.x) != n_final_samples:", "if n_final_samples is None and len(samples.x) != n_final_samples:", "C10.final"),
+    M("enlargement only for larger requests", "src/aspire/samplers/smc/base.py", "if n_final_samples is not None and len(samples.x) != n_final_samples:", "if n_final_samples is not None and len(samples.x) < n_final_samples:", "C10.final"),
     M("enlargement returns the unmutated resample", "src/aspire/samplers/smc/base.py", "samples = self.mutate(final_samples, 1.0, n_steps=n_final_steps)", "samples = final_samples", "C10.final"),
     M("enlargement resamples at the wrong temperature", "src/aspire/samplers/smc/base.py", "final_samples = samples.resample(\n                1.0, n_samples=n_final_samples, rng=self.rng\n            )", "final_samples = samples.resample(\n                beta, n_samples=n_final_samples, rng=self.rng\n            )", "C10.final"),
 ]
@@ -310,6 +338,7 @@ MUTANTS += [
     M("nan patch written into the cached likelihood", "src/aspire/samplers/smc/base.py", "log_prob = update_at_indices(\n            log_prob, self.xp.isnan(log_prob), -self.xp.inf\n        )", "update_at_indices(samples.log_likelihood, self.xp.isnan(log_prob), -self.xp.inf)", "C10.own"),
 ]
 NEUTRALS = [
+    M("enlargement whenever a final size is requested", "src/aspire/samplers/smc/base.py", "if n_final_samples is not None and len(samples.x) != n_final_samples:", "if n_final_samples is not None:"),
     M("forward copies through a temporary", _T, "x = copy_array(x, xp=self.xp)\n        x = self.xp.atleast_2d(x)\n        log_abs_det_jacobian = self.xp.zeros(len(x), device=self.device)\n        if self.periodic_parameters:",
       "x2 = copy_array(x, xp=self.xp)\n        x = self.xp.atleast_2d(x2)\n        log_abs_det_jacobian = self.xp.zeros(len(x), device=self.device)\n        if self.periodic_parameters:"),
     M("minipcn: log_q via temporary", _MP, "samples.log_q = samples.array_to_namespace(\n            self.prior_flow.log_prob(samples.x)\n        )", "lq = self.prior_flow.log_prob(samples.x)\n        samples.log_q = samples.array_to_namespace(lq)"),
